@@ -531,6 +531,177 @@ def ring_convert(c):
 
 
 # =====================================================================================================================
+# F. states reached by a HISTORY of one ansatz object (build, then update_var_params): spec/C12History.tla generates the
+#    parameter histories, the FINAL circuit is judged exactly (ring engine on 4 qubits, stabiliser engine at Clifford points
+#    on 6 and 8 qubits)
+# =====================================================================================================================
+def make_instance(name, nmo, ne, utd, k=1):
+    from tangelo.toolboxes.ansatz_generator.uccsd import UCCSD
+    from tangelo.toolboxes.ansatz_generator.upccgsd import UpCCGSD
+    from tangelo.toolboxes.ansatz_generator.uccgd import UCCGD
+    from tangelo.toolboxes.ansatz_generator.rucc import RUCC
+    from tangelo.toolboxes.ansatz_generator.puccd import pUCCD
+    if name == "UCC1":
+        return RUCC(1)
+    if name == "UCC3":
+        return RUCC(3)
+    mol = closed_shell_molecule(nmo, ne, random.Random(7))
+    if name == "UCCSD":
+        return UCCSD(mol, mapping="JW", up_then_down=utd)
+    if name == "UpCCGSD":
+        return UpCCGSD(mol, mapping="JW", up_then_down=utd, k=k)
+    if name == "UCCGD":
+        return UCCGD(mol, mapping="JW", up_then_down=utd)
+    if name == "pUCCD":
+        return pUCCD(mol)
+    raise ValueError(name)
+
+
+def history_units(name, ans, engine):
+    """unit angle per parameter: the smallest word rotation of the parameter's generator is pi/4 (ring engine) or pi/2
+    (stabiliser engine); every other word of the parameter must be an integer multiple of it (else the unit is None)."""
+    pi = math.pi
+    npar = ans.n_var_params
+    if name in ("UCC1", "UCC3"):
+        return [pi / 4 if engine == "ring" else pi / 2] * npar
+    if name == "pUCCD":
+        return [pi / 4 if engine == "ring" else pi] * npar          # CRY(-theta), singly controlled
+    per = ans.n_var_params_per_step if name == "UpCCGSD" else npar
+    base = []
+    for i in range(per):
+        cs = [abs(c) for c in generator_of(name, ans, i).terms.values() if c != 0]
+        cmin = min(cs) if cs else None
+        if cmin and any(abs(c / cmin - round(c / cmin)) > 1e-9 for c in cs):
+            cmin = None
+        base.append(((pi / 8) if engine == "ring" else (pi / 4)) / cmin if cmin else None)
+    return [base[i % per] for i in range(npar)]
+
+
+_hist_cache = {}
+_units_cache = {}
+
+
+def tlc_histories(chk, np_, layer, maxlen, num):
+    """behaviours of spec/C12History.tla for np_ parameters in layers of `layer` (tlc -simulate, seeded)."""
+    key = (np_, layer, maxlen, num)
+    if key not in _hist_cache:
+        cfg = ("CONSTANTS NP = %d\nLayer = %d\nMaxLen = %d\nINIT Init\nNEXT Next\nINVARIANT TypeOK\nINVARIANT StartsWithZero\n"
+               "INVARIANT EndOfBehaviour\n" % (np_, layer, maxlen))
+        r = tlc.run("C12History", cfg, "c12/hist_np%d_%d" % (np_, layer), workers=1, simulate="num=%d" % num, depth=maxlen, seed=chk.seed + 17)
+        if not r.ok:
+            raise tlc.TLCError("C12History failed: %s\n%s" % (r.violated, r.out[-1200:]))
+        chk.add_tlc(r, "G_history_np%d_layer%d" % (np_, layer))
+        seen, out = set(), []
+        for b in r.prints("BH"):
+            t = tuple(tuple(v) for v in b["h"])
+            if t not in seen:
+                seen.add(t)
+                out.append([list(v) for v in b["h"]])
+        _hist_cache[key] = out
+    return _hist_cache[key]
+
+
+def pick_histories(hs, rng, n):
+    """a seeded selection that contains, when available, an unchanged-pattern update and a changed-pattern one."""
+    def pat(v):
+        return tuple(x == 0 for x in v)
+    same = [h for h in hs if pat(h[-1]) == pat(h[-2]) and any(h[-1]) and h[-1] != h[-2]]
+    other = [h for h in hs if pat(h[-1]) != pat(h[-2])]
+    rng.shuffle(same)
+    rng.shuffle(other)
+    out = []
+    while len(out) < n and (same or other):        # two unchanged-pattern histories for every changed-pattern one
+        for _ in range(2):
+            if same and len(out) < n:
+                out.append(same.pop())
+        if other and len(out) < n:
+            out.append(other.pop())
+    return out
+
+
+def history_job(J, inst, h, S_by_engine):
+    """replay one history on a fresh ansatz object and record its final circuit."""
+    import contextlib
+    import io
+    import numpy as np
+    chk = J.chk
+    name, nmo, ne, utd, k, engine = inst
+    how = {"class": "history", "ansatz": name, "nmo": nmo, "ne": ne, "utd": utd, "k": k, "engine": engine, "hist": h}
+    try:
+        ans = make_instance(name, nmo, ne, utd, k)
+        if inst not in _units_cache:
+            _units_cache[inst] = history_units(name, make_instance(name, nmo, ne, utd, k), engine)
+        units = _units_cache[inst]
+        if any(u is None for u in units):
+            chk.inconclusive += 1
+            return
+        with contextlib.redirect_stdout(io.StringIO()):
+            for step, v in enumerate(h):
+                theta = [u * m for u, m in zip(units, v)]
+                arg = list(theta) if name in ("UCC1", "UCC3") else np.array(theta, dtype=float)
+                if step == 0:
+                    ans.build_circuit(arg)
+                else:
+                    ans.update_var_params(arg)
+        m = MC if engine == "ring" else M
+        gj = gates_to_json(list(ans.circuit), m)
+    except OffGrid:
+        chk.inconclusive += 1
+        return
+    except Exception as e:
+        chk.violation("exception:history:%s" % name, "%s: %s (%s)" % (type(e).__name__, e, str(how)[:300]), {"kind": "exception", "how": how})
+        return
+    S, nq = S_by_engine
+    J.add("circ" if engine == "ring" else "cliff", how, gates=gj, nq=max(nq, ans.circuit.width), S=S, M=m)
+
+
+def history_symmetries(name, nmo, ne, utd, engine):
+    from tangelo.toolboxes.qubit_mappings.mapping_transform import fermion_to_qubit_mapping
+    m = MC if engine == "ring" else M
+    if name == "pUCCD":
+        iN = qubit_op_to_json(fermion_to_qubit_mapping(symmetry_op("N", nmo, False), "HCB"), nmo, m)
+        return [{"op": iN, "v": ring(ne, m)}], nmo
+    S, nq = sym_images(2 * nmo, utd, ne, 0)
+    if engine == "ring":
+        S = [{"op": [dict(t, c=ring_convert(t["c"])) for t in s["op"]], "v": ring_convert(s["v"])} for s in S]
+    return S, nq
+
+
+def history_instances(quick):
+    """(name, nmo, ne, utd, k, engine, number of histories)"""
+    q = quick
+    out = [("UCCSD", 2, 2, False, 1, "ring", 2 if q else 8), ("UCCSD", 2, 2, True, 1, "ring", 1 if q else 6),
+           ("UpCCGSD", 2, 2, False, 1, "ring", 1 if q else 6), ("UpCCGSD", 2, 2, False, 2, "ring", 2 if q else 8),
+           ("UpCCGSD", 2, 2, True, 3, "ring", 2 if q else 8), ("UCCGD", 2, 2, False, 1, "ring", 2 if q else 8),
+           ("UCC1", 2, 2, True, 1, "ring", 1 if q else 3), ("UCC3", 2, 2, True, 1, "ring", 2 if q else 8),
+           ("pUCCD", 2, 2, False, 1, "ring", 1 if q else 3), ("pUCCD", 3, 2, False, 1, "ring", 1 if q else 6),
+           # stabiliser engine at Clifford points: 6 and 8 qubits (H4-sized)
+           ("UCCSD", 3, 2, False, 1, "cliff", 1 if q else 6), ("UpCCGSD", 3, 2, False, 2, "cliff", 2 if q else 8),
+           ("UCCSD", 4, 4, False, 1, "cliff", 2 if q else 10), ("UpCCGSD", 4, 4, False, 2, "cliff", 4 if q else 14),
+           ("pUCCD", 4, 4, False, 1, "cliff", 1 if q else 6)]
+    if not q:
+        out += [("UCCSD", 4, 4, True, 1, "cliff", 6), ("UpCCGSD", 4, 4, True, 2, "cliff", 8), ("UpCCGSD", 4, 4, False, 1, "cliff", 6),
+                ("UpCCGSD", 4, 4, False, 3, "cliff", 8), ("UpCCGSD", 3, 2, True, 3, "cliff", 8), ("UCCSD", 3, 4, True, 1, "cliff", 6),
+                ("UCCGD", 3, 2, False, 1, "cliff", 2)]
+    return out
+
+
+def gen_histories(J, rng, quick):
+    chk = J.chk
+    maxlen = 3 if quick else 4
+    for name, nmo, ne, utd, k, engine, n_hist in history_instances(quick):
+        how0 = {"class": "history", "ansatz": name, "nmo": nmo, "ne": ne, "utd": utd, "k": k}
+        probe = guarded(chk, "ansatz:%s" % name, how0, lambda: make_instance(name, nmo, ne, utd, k))
+        if probe is None:
+            continue
+        layer = probe.n_var_params_per_step if name == "UpCCGSD" else probe.n_var_params
+        hs = tlc_histories(chk, probe.n_var_params, layer, maxlen, 40 if quick else 120)
+        Sb = history_symmetries(name, nmo, ne, utd, engine)
+        for h in pick_histories(list(hs), rng, n_hist):
+            history_job(J, (name, nmo, ne, utd, k, engine), h, Sb)
+
+
+# =====================================================================================================================
 def s_part(chk):
     invs = ["SpecEigen", "SpecS2Eigen", "S2Commutes", "SquarePositive", "FastApplyAgrees", "Discriminates", "BlockSelfCheck"]
     sets = ["{2, 4}", "{6}"]
@@ -579,7 +750,7 @@ def negative_controls(J, verdicts):
             for x, e in enumerate(c["cw"]):         # every word gets its own independent parameter
                 for y in e:
                     y["p"] = 100 + x
-        elif k == "circ":
+        elif k in ("circ", "cliff"):
             c["gates"] = c["gates"] + [{"name": "X", "t": [0], "c": [], "k": 0}]
         seen.add(k)
         c["id"] = 10 ** 6 + len(ctl)
@@ -630,6 +801,7 @@ def run(chk):
     gen_encoded(J, rng, chk.quick)
     gen_ansatz(J, rng, chk.quick)
     gen_circuits(J, rng, chk.quick)
+    gen_histories(J, rng, chk.quick)
     verdicts, ctl = judge_all(chk, J)
     stats, per_key = {}, {}
     for j in J.jobs:
@@ -643,6 +815,9 @@ def run(chk):
             continue
         if v in ("malformed", "malformed-gate"):
             raise tlc.TLCError("malformed record: %s" % m)
+        if v == "off-carrier":
+            chk.inconclusive += 1
+            continue
         if v == "block-condition-fails":
             # sufficient condition only: conservation for all parameter values is then not established by the spec;
             # the verdict for this ansatz rests on the exact circuit evaluation (4- and 6-qubit instances)
@@ -661,7 +836,7 @@ def run(chk):
     if bad:
         raise tlc.TLCError("binding failure: corrupted records accepted: %s" % bad)
     chk.part("V", jobs=len(J.jobs), by_class={k: {"n": v[0], "bad": v[1]} for k, v in sorted(stats.items())})
-    for cls in ("operator", "penalty", "commutation", "encoded-penalty", "generator", "circuit"):
+    for cls in ("operator", "penalty", "commutation", "encoded-penalty", "generator", "history"):
         for j in J.jobs:
             if J.meta[j["id"]]["how"].get("class") == cls:
                 chk.sample({"how": J.meta[j["id"]]["how"], "verdict": verdicts[j["id"]],
@@ -686,6 +861,9 @@ def key_of(how):
         parts.append(how["spec"]["form"] + "-" + "+".join(p[0] for p in how["spec"]["parts"]))
     if "utd" in how:
         parts.append("utd=%s" % how["utd"])
+    if how.get("class") == "history":
+        parts.append("k=%s:nmo=%s:%s" % (how.get("k"), how.get("nmo"), "same-pattern" if len(how["hist"]) > 1 and
+                     [x == 0 for x in how["hist"][-1]] == [x == 0 for x in how["hist"][-2]] else "changed-pattern"))
     return ":".join(parts)
 
 
@@ -715,6 +893,12 @@ def replay(chk, rec):
         i = how["ints"]
         H = synth_uhf_hamiltonian(i["nmo"], *i["uhf"])
         J.add("comm", how, op=fop_json(symmetry_op(how["op"], i["nmo"], False)), ham=fop_json(H), n=2 * i["nmo"])
+    elif cls == "history":
+        inst = (how["ansatz"], how["nmo"], how["ne"], how["utd"], how["k"], how["engine"])
+        history_job(J, inst, how["hist"], history_symmetries(how["ansatz"], how["nmo"], how["ne"], how["utd"], how["engine"]))
+        if c2.violations:
+            print("exception reproduced:", c2.violations[0][:2])
+            return False
     else:
         # re-generate the whole class and look for the same key
         gens = {"encoded-penalty": gen_encoded, "encoded-penalty-on-determinants": gen_encoded, "generator": gen_ansatz,
